@@ -12,7 +12,7 @@
           why   = the evidence that decides ("addr" | "sni" | "host" | "nothing_allowed" | "none"), syntax = Host header
                   syntax class, total = length of the first flight -- these only label signatures / completeness
      [k |-> "seg", data, cut]   the client delivers a segment of payload; cut = class of the boundary after it
-                                ("lt3" | "in_reqline" | "in_head" | "head_done" | "in_hello" | "hello_done" | "other" | "post")
+                                ("lt3" | "in_reqline" | "in_head" | "head_done" | "in_hello" | "hello_done" | "early_data" | "other" | "post")
      [k |-> "decide", cls]      the next_layer hook chose the layer for the payload: "pass" (raw relay, no flow),
                                 "tcp" (raw relay with a TCP flow), "tls" (TLS layers), "http" (HttpLayer)
      [k |-> "to_server", data] / [k |-> "to_client", data]   payload bytes written to the peers
